@@ -1,0 +1,43 @@
+//go:build verif
+// +build verif
+
+package index
+
+import (
+	"github.com/RoaringBitmap/roaring"
+	segment "github.com/blugelabs/bluge_segment_api"
+)
+
+// VerifHook, when set, is called at the instrumented points of the writer.
+// It exists only in builds with the verif tag.
+var VerifHook func(ev string, w *Writer, args ...interface{})
+
+func verifHook(ev string, w *Writer, args ...interface{}) {
+	if h := VerifHook; h != nil {
+		h(ev, w, args...)
+	}
+}
+
+// VerifSeg is a read-only projection of one entry of a Snapshot.
+type VerifSeg struct {
+	ID        uint64
+	Segment   segment.Segment
+	Deleted   *roaring.Bitmap
+	Persisted bool
+}
+
+func (i *Snapshot) VerifEpoch() uint64 { return i.epoch }
+
+func (i *Snapshot) VerifCreator() string { return i.creator }
+
+func (i *Snapshot) VerifSegs() []VerifSeg {
+	rv := make([]VerifSeg, 0, len(i.segment))
+	for _, s := range i.segment {
+		var del *roaring.Bitmap
+		if s.deleted != nil {
+			del = s.deleted.Clone()
+		}
+		rv = append(rv, VerifSeg{ID: s.id, Segment: s.segment.Segment, Deleted: del, Persisted: s.segment.Persisted()})
+	}
+	return rv
+}
